@@ -458,7 +458,14 @@ def loop(options: argparse.Namespace) -> None:
         if as_path is None:
             as_path = options.as_path
         if options.neighbors and not any(n == '*' for n in options.neighbors):
-            prefix = ', '.join(f'peer {neighbor}' for neighbor in options.neighbors)
+            # several neighbors are one bracketed selector in the API (`peer [ a , b ] announce ...`, the tokens
+            # separated by blanks, which is how the dispatcher splits them). Written as
+            # `peer a, peer b announce ...` (the old `neighbor a, neighbor b` form with the word replaced) the
+            # daemon took `a,` for an address, matched no peer and refused every line: nothing was ever announced.
+            if len(options.neighbors) == 1:
+                prefix = f'peer {options.neighbors[0]}'
+            else:
+                prefix = 'peer [ ' + ' , '.join(str(neighbor) for neighbor in options.neighbors) + ' ]'
         else:
             prefix = 'peer *'
         for ip in options.ips:
